@@ -97,14 +97,6 @@ fn ztick() {
     }
 }
 // arithmetic (operation `VArith`): every operator destroys all operands but one
-impl std::ops::Add<ZDrop> for ZDrop {
-    type Output = ZDrop;
-    fn add(self, rhs: ZDrop) -> ZDrop {
-        ztick();
-        drop(rhs);
-        self
-    }
-}
 impl<'a> std::ops::Add<&'a ZDrop> for ZDrop {
     type Output = ZDrop;
     fn add(self, _rhs: &'a ZDrop) -> ZDrop {
@@ -112,18 +104,35 @@ impl<'a> std::ops::Add<&'a ZDrop> for ZDrop {
         self
     }
 }
-impl std::ops::Mul<ZDrop> for ZDrop {
-    type Output = ZDrop;
-    fn mul(self, rhs: ZDrop) -> ZDrop {
-        ztick();
-        drop(self);
-        rhs
-    }
+macro_rules! z_binop {
+    ($($Tr:ident $m:ident),+) => {$(
+        impl std::ops::$Tr<ZDrop> for ZDrop {
+            type Output = ZDrop;
+            fn $m(self, rhs: ZDrop) -> ZDrop {
+                ztick();
+                drop(rhs);
+                self
+            }
+        }
+    )+};
 }
-impl std::ops::AddAssign<ZDrop> for ZDrop {
-    fn add_assign(&mut self, rhs: ZDrop) {
+macro_rules! z_assign {
+    ($($Tr:ident $m:ident),+) => {$(
+        impl std::ops::$Tr<ZDrop> for ZDrop {
+            fn $m(&mut self, rhs: ZDrop) {
+                ztick();
+                drop(rhs);
+            }
+        }
+    )+};
+}
+z_binop!(Add add, Sub sub, Mul mul, Div div, Rem rem, BitAnd bitand, BitOr bitor, BitXor bitxor, Shl shl, Shr shr);
+z_assign!(AddAssign add_assign, SubAssign sub_assign, MulAssign mul_assign, DivAssign div_assign, RemAssign rem_assign, BitAndAssign bitand_assign, BitOrAssign bitor_assign, BitXorAssign bitxor_assign, ShlAssign shl_assign, ShrAssign shr_assign);
+impl std::ops::Not for ZDrop {
+    type Output = ZDrop;
+    fn not(self) -> ZDrop {
         ztick();
-        drop(rhs);
+        self
     }
 }
 impl std::ops::Neg for ZDrop {
@@ -524,21 +533,46 @@ impl ZExec<$K> {
                 ZForm::V(v) => {
                     let keep_new = op.a % 2 == 1;
                     let mut calls = 0usize;
-                    let r = guard_nopanic("reduce", 0, 0, || {
-                        <$K as Kind<ZDrop>>::v_reduce(v, |a, b| {
-                            calls += 1;
-                            if calls > 80 {
-                                std::panic::panic_any(Injected);
-                            }
-                            if keep_new {
-                                drop(a);
-                                b
-                            } else {
-                                drop(b);
-                                a
-                            }
+                    let pa = op.f as usize;
+                    let mut fired = false;
+                    let r = {
+                        let calls = &mut calls;
+                        let fired = &mut fired;
+                        crate::exec::guard(0, 0, None, move || {
+                            <$K as Kind<ZDrop>>::v_reduce(v, |a, b| {
+                                *calls += 1;
+                                if *calls > 80 {
+                                    std::panic::panic_any(Injected);
+                                }
+                                // fault kind F7: the closure unwinds at its pa-th call
+                                if pa != 0 && *calls == pa {
+                                    *fired = true;
+                                    tok::note(EV_INJECT, 7000 + *calls as u64);
+                                    std::panic::panic_any(Injected);
+                                }
+                                if keep_new {
+                                    drop(a);
+                                    b
+                                } else {
+                                    drop(b);
+                                    a
+                                }
+                            })
                         })
-                    });
+                        .0
+                    };
+                    let r = match r {
+                        Ok(x) => Some(x),
+                        Err(crate::exec::Thrown::Injected) if fired => None,
+                        Err(crate::exec::Thrown::Injected) => {
+                            tok::raise(V10_UNEXPECTED_PANIC, "zero-sized elements: reduce: an injected panic surfaced where none was planned, or the closure was called more than 80 times".to_string());
+                            None
+                        }
+                        Err(crate::exec::Thrown::Genuine(msg)) => {
+                            tok::raise(V10_UNEXPECTED_PANIC, format!("zero-sized elements: reduce panicked: {}", msg));
+                            None
+                        }
+                    };
                     if r.is_some() && calls != n - 1 {
                         tok::raise(V5_ORDER, format!("zero-sized elements: reduce called its closure {} times on {} elements", calls, n));
                     }
@@ -631,7 +665,7 @@ impl ZExec<$K> {
                         let kept = &mut kept;
                         crate::exec::guard(0, 0, None, move || -> Option<<$K as Kind<ZDrop>>::V> {
                             match mode {
-                                0 => Some(<$K as Kind<ZDrop>>::v_add(v, mk())),
+                                0 => Some(<$K as Kind<ZDrop>>::v_binop(v, mk(), op.b >> 16)),
                                 1 => Some(<$K as Kind<ZDrop>>::v_add_arr(v, <$K as Kind<ZDrop>>::v_into_arr(mk()))),
                                 2 => Some(<$K as Kind<ZDrop>>::v_mul_tup(v, <$K as Kind<ZDrop>>::v_into_tup(mk()))),
                                 3 => {
@@ -640,10 +674,10 @@ impl ZExec<$K> {
                                 }
                                 4 => {
                                     *kept = Some(v);
-                                    <$K as Kind<ZDrop>>::v_add_assign(kept.as_mut().unwrap(), mk());
+                                    <$K as Kind<ZDrop>>::v_assign(kept.as_mut().unwrap(), mk(), op.b >> 16);
                                     kept.take()
                                 }
-                                5 => Some(<$K as Kind<ZDrop>>::v_neg(v)),
+                                5 => Some(<$K as Kind<ZDrop>>::v_unop(v, op.b >> 16)),
                                 6 => Some(<$K as Kind<ZDrop>>::v_mul_add(v, mk(), mk())),
                                 7 => Some(<$K as Kind<ZDrop>>::v_sum_of(vec![v, mk()].into_iter())),
                                 8 => Some(<$K as Kind<ZDrop>>::v_product_of(vec![v, mk(), mk()].into_iter())),
